@@ -23,5 +23,10 @@ Dom(dd) == LET vs == Vals(IF dd.fmt = "gtf" THEN GtfChars ELSE Chars) IN
            {<< <<K1, <<v>>>> >> : v \in vs} \cup {<< <<K2, <<v, w>>>> >> : v \in vs, w \in {<<120>>, <<SP, 120>>, <<PCT>>}}
            \cup {<< <<K1, <<v>>>>, <<K2, <<w>>>> >> : v \in vs, w \in {<<120>>, <<120, SP>>, <<QT, 120, QT>>}}
 Next == /\ a = <<>> /\ d' = d /\ a' \in Dom(d)
-        /\ (Explore => (Lossless(a', d) \/ PrintT(ToJson([a |-> a', d |-> d, t |-> Render(a', d, TRUE, FALSE), p |-> ParseWith(Render(a', d, TRUE, FALSE), d)]))))
+        /\ PrintT(ToJson([a |-> a', d |-> d, t |-> Render(a', d, TRUE, FALSE), dom |-> LosslessDomain(a', d),
+                           f10 |-> Dev_UnquotedGtfStripsEdgeBlanks(a', d)]))
+\* C08(a): inside the domain, print/parse with the same dialect is the identity - except for the one named deviation
+InvLossless == (a # <<>> /\ LosslessDomain(a, d) /\ ~Dev_UnquotedGtfStripsEdgeBlanks(a, d)) => Lossless(a, d)
+\* and the deviation really is one: every pair it names loses something
+InvF10 == (a # <<>> /\ LosslessDomain(a, d) /\ Dev_UnquotedGtfStripsEdgeBlanks(a, d)) => ~Lossless(a, d)
 =============================================================================
